@@ -75,6 +75,9 @@ def main():
         if not os.path.exists(os.path.join(d, "meta.json")) or (name and name not in n):
             continue
         meta = json.load(open(os.path.join(d, "meta.json")))
+        if meta.get("retired"):
+            print("%-7s %-28s %s %s" % ("RETIRED", n, meta["property"], meta["retired"][:90]))
+            continue
         props = claimed() if allp else [meta["property"]] if meta["property"] in claimed() else []
         meta, out = run_one(d, props, rs_facts)
         caught = {p: v["keys"] for p, v in out.items() if isinstance(v, dict) and v.get("keys")}
